@@ -257,6 +257,29 @@ def run(ctx):
                             break
                     except Exception:  # noqa: BLE001
                         pass
+    if not ctx.quick():
+        # thorough: ALL ordered pairs of the small scope to depth 1 (leaves + every depth-1 container): symmetry, equal => same
+        # verdicts on the scope's values, and the == result against the model
+        from .. import smallscope
+        scope = smallscope.leaves() + smallscope.depth1()
+        svals = smallscope.values()
+        for i, a in enumerate(scope):
+            for b in scope[i:]:
+                ctx.count("smallscope_pairs")
+                r1, r2 = eq(a, b), eq(b, a)
+                if r1 is not r2:
+                    ctx.violation("== is not symmetric", a=repr(a), b=repr(b), results=[repr(r1), repr(r2)], py_a=a, py_b=b)
+                if r1 is True and a is not b:
+                    for x in svals:
+                        try:
+                            if validate(a, x).has_errors() != validate(b, x).has_errors():
+                                ctx.violation("schemas compare equal but give different verdicts on a value", a=repr(a), b=repr(b),
+                                              value=repr(x), py_a=a, py_b=b, k8=universal_at_edge(a) or universal_at_edge(b))
+                                break
+                        except Exception:  # noqa: BLE001
+                            pass
+                corr(a, b)
+        ctx.cov["smallscope_schemas"] = len(scope)
     # cross-class pairs, with universal schemas on either side
     universal = [schema.any, schema.int | schema.any, schema.alias("U", schema.any), schema.any(schema.any, schema.none)]
     others = [schema.int, schema.str, schema.none, schema.list, schema.dict, schema.bool, schema.float, schema.bytes,
